@@ -72,7 +72,7 @@ def worker_main(a):
     out = sys.stdout
     agg = {
         "type": "summary", "worker": a["start"], "runs": 0, "evaluations": 0, "stats": {}, "faults": {}, "probes": {}, "steps": 0,
-        "uncaught": {}, "violations": 0, "entropy_calls": 0, "ops": 0, "runs_with_threads": 0,
+        "uncaught": {}, "violations": 0, "entropy_calls": 0, "ops": 0, "runs_with_threads": 0, "clock_reads": 0, "pid_reads": 0,
     }
     nt = set()
     sigs = set()
@@ -140,6 +140,8 @@ def worker_main(a):
         agg["steps"] += ctx.steps
         agg["ops"] += len(ctx.ops_out)
         agg["entropy_calls"] += ctx.entropy_calls
+        agg["clock_reads"] += getattr(ctx, "clock_reads", 0)
+        agg["pid_reads"] += getattr(ctx, "pid_reads", 0)
         if ctx.sigs:
             agg["runs_with_threads"] += 1
         merge(agg["stats"], ctx.stats)
@@ -351,7 +353,7 @@ def finish(prop, tier, seed, t0, scratch, summaries, hs_summ, viols, herr, W, n_
     import core
 
     known = load_known()
-    agg = {"runs": 0, "evaluations": 0, "steps": 0, "ops": 0, "entropy_calls": 0, "runs_with_threads": 0}
+    agg = {"runs": 0, "evaluations": 0, "steps": 0, "ops": 0, "entropy_calls": 0, "runs_with_threads": 0, "clock_reads": 0, "pid_reads": 0}
     imax = [0, 0]
     stats, faults, probes, uncaught = {}, {}, {}, {}
     nt = set()
@@ -431,7 +433,7 @@ def finish(prop, tier, seed, t0, scratch, summaries, hs_summ, viols, herr, W, n_
         "seeds_per_hour": int(agg["runs"] / wall * 3600) if wall > 0 else 0,
         "ops_executed": agg["ops"],
         "ops_by_kind": {k[3:]: v for k, v in sorted(stats.items()) if k.startswith("op:")},
-        "simulated_time": {"unit": "scheduler steps (library line/opcode events under pre-emption); the library reads no clock, so steps are the simulator's only notion of time", "steps": agg["steps"], "sim_clock_reads": 0},
+        "simulated_time": {"unit": "scheduler steps (library line/opcode events under pre-emption); the library reads no clock, so steps are the simulator's only notion of time", "steps": agg["steps"], "sim_clock_reads": agg["clock_reads"], "sim_pid_reads": agg["pid_reads"]},
         "faults_fired": dict(sorted(faults.items())),
         "fault_kinds_not_applicable": NA_FAULTS,
         "probes": dict(sorted(probes.items())),
